@@ -3,7 +3,7 @@
 The verified text is the text of /repo, copied byte for byte, with
   * annotations inserted (contracts, invariants, proof blocks, ghost lets, type
     ascriptions) -- these never change an executable token, and
-  * a small fixed list of mechanical rewrites of executable text (rules R1..R17,
+  * a small fixed list of mechanical rewrites of executable text (rules R1..R20,
     see DESIGN.md 2.2 and 14.3); every application is logged (rule, file, line, before, after).
 
 Anything this module cannot find where the sidecar expects it raises LostAnchor, which
